@@ -200,6 +200,19 @@ func (c *c09) tokenEntries(class string, in []byte, codec string) {
 			}
 		})
 	}
+	// the envelope inspection helpers take any IPLD node
+	c.call("token.Inspect", class, in, func() {
+		dec := dagcbor.Decode
+		if codec == "dagjson" {
+			dec = dagjson.Decode
+		}
+		n, err := ipld.Decode(in, dec)
+		if err != nil {
+			return
+		}
+		_, _ = token.Inspect(n)
+		_, _ = token.FindTag(n)
+	})
 	if past {
 		c.w.Cover("past-first-layer")
 	}
